@@ -640,7 +640,12 @@ func (c *FCtx) havocLocks(st *State, ws *Effects) {
 	}
 	defer func() { c.clockAfterHavoc(st, calls) }()
 	for k := range ws.Locks {
+		prev := c.heapGet(st, k, SArr(SInt, SInt))
 		st.heap[k] = c.freshVar(k, SArr(SInt, SInt))
+		if strings.HasPrefix(k, "G$calls.") && k != clockKey {
+			// call counts only grow
+			st.assume(IGe(Select(st.heap[k], IntC(0)), Select(prev, IntC(0))))
+		}
 		if !strings.HasPrefix(k, "L$") {
 			continue // event and call counters: no automatic invariant
 		}
